@@ -50,7 +50,7 @@ fn check(ctx: &mut Ctx, pts: &[PT], sw: u32, sh: u32, dw: u32, dh: u32, cx: Crop
         o.alpha = pt.has_alpha(); // alpha handling requested: Nearest must still not touch the values
         let src = tag_image(pt, sw, sh);
         let fo = o.to_fir(sw, sh);
-        let mut combos: Vec<(bool, SrcK, DstK)> = vec![(false, SrcK::RefNew, DstK::ImgSlice), (false, SrcK::CropOfRef, DstK::ImgSliceSpare)];
+        let mut combos: Vec<(bool, SrcK, DstK)> = vec![(false, SrcK::RefNew, DstK::ImgSlice), (false, SrcK::CropOfRef, DstK::ImgSliceSpare), (false, SrcK::CropMutAsSrc, DstK::ImgSlice)];
         if TYPED_PTS.contains(&pt) {
             combos.push((true, SrcK::TRef, DstK::TSlice));
             combos.push((true, SrcK::TCropNew, DstK::TSlice));
@@ -204,7 +204,7 @@ pub fn prop(tier: Tier, _seed: u64) -> Prop {
         .isolated(),
     );
 
-    p.rule = "source sizes (1..S)^2 x one destination axis varying over 1..D (the other fixed) x the full CROP1 x CROP1 alphabet (integer, fractional, sub-pixel, flush-left and flush-right boxes down to a width of n*2^-52) with rotating pixel types; the full (w_in,h_in,w_out,h_out) product up to F^4 x CROP1^2 x all 13 pixel types; huge ratios (1<->4097, 65537->3) and long coprime pairs (1001->300, 997->512, 4099->1000, 300->1001, 1000->999, 65521->4093) on both axes. Source containers: ImageRef and CroppedImage (dynamic entry), TypedImageRef (specialised row stepping) and TypedCroppedImage (generic row stepping) through the typed entry; all buffers end at a guard page and each case runs in an isolated child; every other container run is preceded, on the same Resizer, by a Nearest call with the crop box shifted by one pixel (same size). Oracle: every destination pixel is byte-identical to the source pixel at floor(left+(x+1/2)*cw/dw), floor(top+(y+1/2)*ch/dh); either neighbour when the coordinate is within (n_out+4)*2^-51*extent of an integer".into();
+    p.rule = "source sizes (1..S)^2 x one destination axis varying over 1..D (the other fixed) x the full CROP1 x CROP1 alphabet (integer, fractional, sub-pixel, flush-left and flush-right boxes down to a width of n*2^-52) with rotating pixel types; the full (w_in,h_in,w_out,h_out) product up to F^4 x CROP1^2 x all 13 pixel types; huge ratios (1<->4097, 65537->3) and long coprime pairs (1001->300, 997->512, 4099->1000, 300->1001, 1000->999, 65521->4093) on both axes. Source containers: ImageRef, CroppedImage and CroppedImageMut in the source role (dynamic entry), TypedImageRef (specialised row stepping) and TypedCroppedImage (generic row stepping) through the typed entry; all buffers end at a guard page and each case runs in an isolated child; every other container run is preceded, on the same Resizer, by a Nearest call with the crop box shifted by one pixel (same size). Oracle: every destination pixel is byte-identical to the source pixel at floor(left+(x+1/2)*cw/dw), floor(top+(y+1/2)*ch/dh); either neighbour when the coordinate is within (n_out+4)*2^-51*extent of an integer".into();
     p.bounds = json!({"S": smax, "D": dmax, "F": full});
     p.assumptions = vec!["tags are unique byte patterns per pixel (for U8 at most 256 pixels), so a wrong source pixel is always visible".into()];
     p
